@@ -60,6 +60,9 @@ def bpf_jmp_(obj, s, jt, jf, k):
 # BPF_RET (0x6) instructions:
 @ispec("64>[ 011 s(2) 000 {00} jt(8) jf(8) ~k(32) ]", mnemonic="ret")
 def bpf_ret_(obj, s, jt, jf, k):
+    if s == 3:
+        # the return value is K, X or A
+        raise InstructionError(obj)
     src = (env.cst(k.int(-1), 32), env.X, env.A)[s]
     obj.operands = [src]
     obj.type = type_control_flow
@@ -123,6 +126,9 @@ def bpf_ldx_(obj, sz, md, jt, jf, k):
 @ispec("64>[ 010 sz(2) md(3) {00} jt(8) jf(8) ~k(32) ]", mnemonic="st")
 @ispec("64>[ 110 sz(2) md(3) {00} jt(8) jf(8) ~k(32) ]", mnemonic="stx")
 def bpf_ld_(obj, sz, md, jt, jf, k):
+    if k.int() >= len(env.M):
+        # the scratch memory store has 16 words M[0]..M[15]
+        raise InstructionError(obj)
     dst = env.M[k.int()]
     if obj.mnemonic == "stx":
         src = env.X
